@@ -20,7 +20,7 @@ Requirements for EACH of the two changes:
 * The existing tests must still pass with the change: run the relevant test files (find them with grep under {wt}/tests) like this, making sure the worktree's source is what is imported:
     cd {wt} && PYTHONPATH={wt}/src /venv/bin/python -m pytest -q -p no:cacheprovider -x {wt}/tests/<relevant files or dirs>   # ABSOLUTE paths; run 2-4 such processes in parallel for speed, no -n
   (check once with `PYTHONPATH={wt}/src /venv/bin/python -c "import cogent3; print(cogent3.__file__)"` that it prints a path under {wt}). Run every test file that imports the module you changed (grep for the module name), not just one. If a test fails, pick a different change — do not edit tests.
-* A demonstration `demo.py`: a short stand-alone program (plain cogent3 API, no test framework needed) that exits 0 on the ORIGINAL code and exits non-zero (assertion failure) WITH your change. Run it both ways to confirm: with the change applied, and after `git -C {wt} stash` (then `git -C {wt} stash pop`). Run it as `PYTHONPATH={wt}/src /venv/bin/python demo.py`.
+* A demonstration `demo.py`: a short stand-alone program (plain cogent3 API, no test framework needed) that exits 0 on the ORIGINAL code and exits non-zero (assertion failure) WITH your change. Run it both ways to confirm: with the change applied, and after saving your diff (`git -C {wt} diff > /tmp/seed-out/{pid}-cur.diff`), reverting it with `git -C {wt} apply -R /tmp/seed-out/{pid}-cur.diff`, and re-applying it with `git -C {wt} apply /tmp/seed-out/{pid}-cur.diff` — do NOT use `git stash`, it is shared with other worktrees. Run it as `PYTHONPATH={wt}/src /venv/bin/python demo.py`.
 
 Deliver, for change k in (1, 2), a directory /tmp/seed-out/{pid}/k/ containing:
   patch.diff   — `git -C {wt} diff` output of ONLY that change (paths relative to the repo root, so it applies with `git apply` in a clean checkout)
